@@ -106,6 +106,7 @@ func vxC18Contains() {
 
 	t := time.Unix(unix, ns)
 	got := w.Contains(t)
+	vx.Note(got)
 
 	// Oracle: wall clock = UTC + offset in force at that instant.
 	local := unix + vxC18Offset(unix)
@@ -145,6 +146,7 @@ func vxC18Validate() {
 	s, e := vx.Int64("start"), vx.Int64("end")
 	w := &Weekly{}
 	err := w.validate(dayRange{start: time.Duration(s), end: time.Duration(e)})
+	vx.Note(err != nil)
 
 	// whole minutes, by witnesses: s = 60e9*ks + rs, 0 <= rs < 60e9 (floor division)
 	const minute = int64(time.Minute)
